@@ -112,9 +112,12 @@ def cmdBatch (m : List (String × String)) : Option String := do
 def cmdDecode (m : List (String × String)) : Option String := do
   let h ← get m "hex"
   let bs ← if h == "-" then some [] else hexToBytes h
+  let deg := match Codec.degreeOf bs with
+    | none => "err"
+    | some d => toString d
   match Codec.decode bs with
-  | none => pure "err"
-  | some p => pure s!"ok reenc={bytesToHex (Codec.encode p)} rounds={p.li.length} tag={p.tag}"
+  | none => pure s!"err deg={deg}"
+  | some p => pure s!"ok reenc={bytesToHex (Codec.encode p)} rounds={p.li.length} tag={p.tag} deg={deg}"
 
 open Model.Transcript in
 def evOfStr (t : String) : Option Event :=
